@@ -1803,3 +1803,30 @@ pub fn tls13_messages() -> Vec<W> {
     }));
     v
 }
+
+/// SCT entries over the cross product of all their fields: version x timestamp x extensions size x hash x
+/// signature algorithm x signature size (registered, unregistered and extreme values of each)
+pub fn sct_grid(full: bool) -> Vec<W> {
+    let mut v = Vec::new();
+    let versions: &[u8] = if full { &[0, 1, 2, 3, 0x7f, 0x80, 0xff] } else { &[0, 1, 2, 0xff] };
+    let algs: &[u8] = if full { &[0, 1, 2, 3, 4, 5, 6, 7, 8, 9, 0x40, 0xe0, 0xff] } else { &[0, 1, 3, 4, 7, 8, 9, 0x40, 0xff] };
+    for &ver in versions {
+        for ts in [0u64, 0x0000_0160_0000_0000, u64::MAX] {
+            for e in [0usize, 1, 5, 300] {
+                for &h in algs {
+                    for &s in algs {
+                        for sig in [0usize, 1, 64, 65, 72] {
+                            if !full && ts != 0 && (sig == 1 || sig == 65 || e == 5) {
+                                continue;
+                            }
+                            let mut w = W::new();
+                            sct_entry(&mut w, ver, ts, e, h, s, sig);
+                            v.push(w);
+                        }
+                    }
+                }
+            }
+        }
+    }
+    v
+}
